@@ -31,7 +31,7 @@ REAL_VS_STUB = {
     "real": ["stackscope.extract and every hook dispatcher / built-in glue", "contextlib", "threading", "greenlet (3.12 leg)"],
     "stub": ["generated programs", "synthetic item types", "wrappers that count and raise at the k-th invocation"],
 }
-RARE_PROBES = ["late_faults", "pairs_injected", "fault_in_nested_stack", "exception_group_seen", "scn_program", "scn_thread", "scn_greenlet", "scn_items", "scn_object"]
+RARE_PROBES = ["late_faults", "pairs_injected", "fault_is_exception_group", "fault_in_nested_stack", "exception_group_seen", "scn_program", "scn_thread", "scn_greenlet", "scn_items", "scn_object"]
 LEGS = [
     {"name": "faults312", "python": "3.12", "quick": 1600, "thorough": 40000, "quick_s": 50, "thorough_s": 420, "run_timeout": 60},
     {"name": "faults311", "python": "3.11", "quick": 600, "thorough": 15000, "quick_s": 40, "thorough_s": 300, "run_timeout": 60},
@@ -44,6 +44,33 @@ class Injected(Exception):
     pass
 
 
+def make_fault(kind, message):
+    """The exception a faulting seam raises: a plain exception, or an exception
+    that is itself a group (a hook that ran several things and reports all the
+    failures) - the raised object, not its members, must be retrievable."""
+    if kind == 0:
+        return Injected(message)
+    try:
+        EG = ExceptionGroup  # noqa: F821 (builtin on 3.11+)
+    except NameError:
+        from exceptiongroup import ExceptionGroup as EG
+    members = [Injected(message + " (member %d)" % i) for i in range(1 + kind % 2)]
+    if kind in (1, 2):
+        return InjectedGroup(EG)(message, members)
+    return EG(message, members)
+
+
+_igcache = {}
+
+
+def InjectedGroup(EG):
+    c = _igcache.get(EG)
+    if c is None:
+        c = type("InjectedGroup", (EG,), {})
+        _igcache[EG] = c
+    return c
+
+
 class Recorder(object):
     """Counting / faulting wrappers around every hook seam."""
 
@@ -53,6 +80,7 @@ class Recorder(object):
     def __init__(self):
         self.calls = []  # hook names in dynamic order
         self.inject_at = set()
+        self.fault_kind = {}
         self.after = False
         self.injected = []  # (k, hook, exception, building_root, frame_arg)
         self.installed = False
@@ -75,7 +103,7 @@ class Recorder(object):
                 k = len(rec.calls)
                 rec.calls.append(hook)
                 if k in rec.inject_at:
-                    e = Injected("fault #%d in %s" % (k, hook))
+                    e = make_fault(rec.fault_kind.get(k, 0), "fault #%d in %s" % (k, hook))
                     farg = None
                     if frame_arg_index is not None and a:
                         farg = a[frame_arg_index]
@@ -106,7 +134,7 @@ class Recorder(object):
             k = len(rec.calls)
             rec.calls.append("frameiter_next")
             if k in rec.inject_at:
-                e = Injected("fault #%d in FrameIterator step" % k)
+                e = make_fault(rec.fault_kind.get(k, 0), "fault #%d in FrameIterator step" % k)
                 rec.injected.append((k, "frameiter_next", e, rec.building(), None))
                 raise e
             return orig_next(self_)
@@ -121,7 +149,7 @@ class Recorder(object):
                 k = len(rec.calls)
                 rec.calls.append("get_referents")
                 if k in rec.inject_at:
-                    e = Injected("fault #%d in gc.get_referents" % k)
+                    e = make_fault(rec.fault_kind.get(k, 0), "fault #%d in gc.get_referents" % k)
                     rec.injected.append((k, "get_referents", e, rec.building(), None))
                     raise e
                 return gc.get_referents(*objs)
@@ -175,10 +203,13 @@ def ctx_stacks(c, acc, depth):
             ctx_stacks(ch, acc, depth)
 
 
-def errors_of(st):
+def errors_of(st, injected=()):
     e = st.error
     if e is None:
         return []
+    if any(e is x for x in injected):
+        # a fault that is itself a group, reported alone
+        return [e]
     subs = getattr(e, "exceptions", None)
     if subs is not None and type(e).__name__ == "ExceptionGroup":
         return list(subs)
@@ -552,6 +583,8 @@ def inject(ctx, scn, rec, ks, st0, stacks0, base_errors):
     rec.calls = []
     rec.injected = []
     rec.inject_at = set(ks)
+    # what is raised: mostly a plain exception, sometimes an exception group
+    rec.fault_kind = dict((k, ctx.tape.weighted([8, 1, 1, 1, 1])) for k in ks)
     try:
         st = do_extract(scn.target())
     except Exception as e:
@@ -565,13 +598,16 @@ def inject(ctx, scn, rec, ks, st0, stacks0, base_errors):
     if not isinstance(st, stackscope.Stack):
         raise Violation("c05_not_a_stack", "extract returned %r" % type(st), {})
     stacks = all_stacks(st)
+    inj = [x[2] for x in rec.injected]
     for (k, hook, exc, (item, depth), farg) in rec.injected:
         ctx.fault("hook_raises:" + hook)
+        if rec.fault_kind.get(k, 0):
+            ctx.stat("fault_is_exception_group")
         ctx.cover(("c05", scn.kind, hook, min(k, 10), depth, len(ks)))
         if depth > 1:
             ctx.stat("fault_in_nested_stack")
         # where must it be reported?
-        holders = [s for (s, d) in stacks if any(x is exc for x in errors_of(s))]
+        holders = [s for (s, d) in stacks if any(x is exc for x in errors_of(s, inj))]
         if not holders:
             raise Violation(
                 "c05_fault_not_reported",
@@ -593,7 +629,7 @@ def inject(ctx, scn, rec, ks, st0, stacks0, base_errors):
                 )
             if item is not None and h.root is not None and h.root is not item:
                 raise Violation("c05_fault_reported_in_wrong_stack", "nested fault reported in the Stack of another root", {"hook": hook})
-        errs = errors_of(h)
+        errs = errors_of(h, inj)
         if len(errs) == 1:
             if h.error is not exc:
                 raise Violation("c05_single_error_wrapped", "a single error is not reported alone: %r" % (h.error,), {"hook": hook})
